@@ -11,7 +11,7 @@ import (
 )
 
 func genKey(t *rapid.T) string {
-	k := rapid.OneOf(rapid.SampledFrom([]string{"1", "a/b", "user:1", " ", "ключ/値", "k\"q", "\t", "a b", "/", "😀"}), rapid.StringN(1, 8, 24)).Draw(t, "key")
+	k := rapid.OneOf(rapid.SampledFrom([]string{"1", "a/b", "user:1", " ", "ключ/値", "k\"q", "\t", "a b", "/", "😀", "a/", "/a", "a//b", "./1", "..", "c19.entity/1", "user/1", "1/"}), rapid.StringN(1, 8, 24)).Draw(t, "key")
 	if k == "" || !json.Valid([]byte(`"`+strings.ReplaceAll(strings.ReplaceAll(k, `\`, `\\`), `"`, `\"`)+`"`)) && false {
 		k = "k"
 	}
